@@ -1,26 +1,28 @@
 #!/bin/bash
 # seeded-regress.sh [name-prefix]: regression suite for the checks themselves. Every stored seeded change that still
-# applies to /repo's HEAD is applied, the quick check of its property is run and must report a VIOLATION, and the
-# change is undone. Evidence is restored afterwards (it must come from the unchanged tree). Prints one line per change.
-cd /verif || exit 2
-git -C /repo diff --quiet || { echo "/repo not clean"; exit 2; }
-EVBAK=$(mktemp -d); cp -r evidence/. $EVBAK/
+# applies to /repo's HEAD is applied in a scratch worktree (never in /repo), the quick check of its property is run
+# against that worktree (VERIF_REPO) and must report a VIOLATION. Prints one line per change. Works from a snapshot
+# of /verif too (vp run): it builds what it needs where it is.
+cd "$(dirname "$0")/.." || exit 2
+[ -x harness/bin/extract ] && [ -x lean/.lake/build/bin/driver ] || ./setup.sh >/dev/null 2>&1 || { echo "setup failed"; exit 2; }
+WT=/tmp/regress-wt-$$
+git -C /repo worktree add --detach $WT HEAD >/dev/null 2>&1 || { echo "cannot create worktree"; exit 2; }
+trap 'git -C /repo worktree remove --force $WT >/dev/null 2>&1; rm -rf harness/bin/*-$(echo -n $WT | sha256sum | cut -c1-8)*' EXIT
 for d in seeded/${1:-}*/; do
   n=$(basename $d); p=${n%%-*}
-  if ! git -C /repo apply --check $PWD/$d/patch.diff 2>/dev/null; then
-    if ! (cd /repo && patch -p1 --dry-run -s -F3 < /verif/$d/patch.diff >/dev/null 2>&1); then echo "$n: SKIP (does not apply to HEAD)"; continue; fi
-    (cd /repo && patch -p1 -s -F3 < /verif/$d/patch.diff >/dev/null)
+  git -C $WT checkout -q -- . ; git -C $WT clean -fdq
+  if ! git -C $WT apply --check $PWD/$d/patch.diff 2>/dev/null; then
+    if ! (cd $WT && patch -p1 --dry-run -s -F3 < $OLDPWD/$d/patch.diff >/dev/null 2>&1); then echo "$n: SKIP (does not apply to HEAD)"; continue; fi
+    (cd $WT && patch -p1 -s -F3 < $OLDPWD/$d/patch.diff >/dev/null; find . -name '*.orig' -delete)
   else
-    git -C /repo apply $PWD/$d/patch.diff
+    git -C $WT apply $PWD/$d/patch.diff
   fi
-  out=$(./check $p quick 2>&1 | tail -12)
+  out=$(VERIF_REPO=$WT ./check $p quick 2>&1 | tail -12)
   v=$(echo "$out" | grep -c "^VIOLATION property=$p")
   nf=$(echo "$out" | grep -c "no-failing-input-found")
   t=$(echo "$out" | grep -o "[0-9.]*s$" | tail -1)
   if [ "$v" = 1 ] && [ "$nf" = 0 ]; then echo "$n: caught, concrete failing input ($t)";
   elif [ "$v" = 1 ]; then echo "$n: caught, no failing input found ($t)";
   else echo "$n: MISSED ($t)"; fi
-  git -C /repo checkout -- . ; git -C /repo clean -fdq -e '*.orig' ; find /repo -name '*.orig' -delete; find /repo -name '*.rej' -delete
 done
-rm -rf evidence; mkdir -p evidence; cp -r $EVBAK/. evidence/; rm -rf $EVBAK
-git -C /repo status --short
+echo regress done
